@@ -25,7 +25,7 @@ PROP = "C05"
 
 def run(ctx):
     ctx.level = "proof"
-    proved = vlib.prove(ctx, ["Properties_C05.v", "Properties_C05_pipeline.v"], facts=["replay", "cred", "base64"])
+    proved = vlib.prove(ctx, ["Properties_C05.v", "Properties_C05_pipeline.v"], facts=["replay", "cred", "base64", "cfun"])
     ctx.log("proofs:", "ok" if proved else "BROKEN: " + getattr(ctx, "broken_obligation", "?"))
     ctx.cov["rule"] = ("proof: Properties_C05.v over ReplayModel (facts from replay.c); correspondence: the same histories "
                        "through /repo's replay.c+hash.c and the extracted model, table dumped through hash_for_each after "
